@@ -166,10 +166,10 @@ def run(tier, seed, replay):
     jobs.append(("replay_auth", consts(auth_reqs if big else auth_reqs[:6], [PLAIN_RESP], cap, 3, 1, "{TRUE}", True, True, closers=lat), "graph", dict(max_len=30)))
     #      and long runs of refused requests before the accepted one
     jobs.append(("replay_auth_deep", consts([PLAIN_REQ, req(au="bad", hs=("ua",)), req(m="POST", au="none", hs=("ua",), bd="len")], [PLAIN_RESP], cap,
-                                            8 if not big else 10, 1, "{TRUE}", True, True, closers='{"cclose"}', constraint="CONSTRAINT AuthDeepOK"), "graph", dict(max_len=40)))
+                                            8 if not big else 9, 1, "{TRUE}", True, True, closers='{"cclose"}', constraint="CONSTRAINT AuthDeepOK"), "graph", dict(max_len=40)))
     #  (b) forwarding: control alphabet x response alphabet x close patterns
     if big:
-        jobs.append(("replay_forward", consts(small_reqs[:6], CTRL_RESPS[:4], cap, 3, 2, "{FALSE}", True, True), "graph", dict(max_len=40, workers=4, timeout=6000)))
+        jobs.append(("replay_forward", consts(small_reqs[:5], CTRL_RESPS[:3], cap, 3, 2, "{FALSE}", True, True), "graph", dict(max_len=40, workers=4, timeout=6000)))
         jobs.append(("replay_forward_wide", consts(CTRL_REQS, CTRL_RESPS, cap, 2, 2, "{FALSE}", True, True, closers='{"cclose","cabort","ow"}'), "graph", dict(max_len=40, workers=4, timeout=6000)))
         jobs.append(("replay_forward_resp", consts(small_reqs[:3], CTRL_RESPS, cap, 2, 3, "{FALSE}", True, True, closers='{"cclose","ow","orw"}'), "graph", dict(max_len=40, workers=4, timeout=6000)))
     else:
